@@ -49,6 +49,15 @@ pub fn dn_values() -> Vec<(String, DnSpec)> {
         ("custom+CN".into(), DnSpec(vec![(Custom(vec![0, 9, 2342, 19200300, 100, 1, 25]), Ia5, "example".into()), (Cn, Utf8, "cn".into())])),
         ("custom oid equal to CN".into(), DnSpec(vec![(Cn, Utf8, "real".into()), (Custom(vec![2, 5, 4, 3]), Utf8, "shadow".into())])),
         ("re-pushed CN".into(), DnSpec(vec![(Cn, Utf8, "first".into()), (O, Utf8, "Org".into()), (Cn, Printable, "second".into())])),
+        // texts outside the type's alphabet: not constructible on a correct tree (then skipped); if a
+        // constructor ever accepts them the emitted string violates its alphabet
+        ("uc:CN bmp astral".into(), one(Cn, Bmp, "a\u{10400}")),
+        ("uc:CN bmp U+FFFF".into(), one(Cn, Bmp, "\u{ffff}")),
+        ("uc:CN printable e-acute".into(), one(Cn, Printable, "caf\u{e9}")),
+        ("uc:CN printable @".into(), one(Cn, Printable, "a@b")),
+        ("uc:CN ia5 e-acute".into(), one(Cn, Ia5, "caf\u{e9}")),
+        ("uc:CN teletex BEL".into(), one(Cn, Teletex, "a\u{7}")),
+        ("uc:CN teletex e-acute".into(), one(Cn, Teletex, "caf\u{e9}")),
     ]
 }
 
@@ -125,6 +134,8 @@ pub fn key_id_values() -> Vec<(String, KeyIdSpec)> {
         ("sha512".into(), KeyIdSpec::Sha512),
         ("pre 4".into(), KeyIdSpec::Pre(vec![0xde, 0xad, 0xbe, 0xef])),
         ("pre 20".into(), KeyIdSpec::Pre((1..=20).collect())),
+        ("pre 32 (high bit)".into(), KeyIdSpec::Pre((0..32u8).map(|i| 0xff - i).collect())),
+        ("pre single zero byte".into(), KeyIdSpec::Pre(vec![0])),
         ("nc:pre empty".into(), KeyIdSpec::Pre(vec![])),
     ]
 }
@@ -234,7 +245,7 @@ pub fn cert_space(conformant_only: bool, with_hash_key_ids: bool) -> Space<CertS
     dims.push(d);
     if conformant_only {
         for d in dims.iter_mut() {
-            d.values.retain(|(l, _)| !l.starts_with("nc:"));
+            d.values.retain(|(l, _)| !l.starts_with("nc:") && !l.starts_with("uc:"));
         }
     }
     Space { base: CertState::default(), dims }
